@@ -65,11 +65,12 @@
 (*           (Globals.tla D1); the probe only relies on these two.         *)
 (*  D-JOIN   `thread-join!` re-raises the thread's error in the joining    *)
 (*           thread (threads.rs thread_join: `stop!(Generic => ...)`).     *)
-(*  D-HUGE   a call that has an argument of magnitude "h" (>= 2^31) may    *)
-(*           exceed the time limit or the memory limit of the replayer     *)
-(*           (`(range 0 (expt 2 62))` is a legitimate way to loop):        *)
-(*           such a timeout / allocation abort is recorded as `resource`,  *)
-(*           not as a violation.  A PANIC is a violation at any magnitude. *)
+(*  D-HUGE   a call that has an argument of magnitude "h" (>= 2^31), and a  *)
+(*           program of depth >= 10^5, may exceed the time limit or the    *)
+(*           memory limit of the replayer (`(range 0 (expt 2 62))` is a    *)
+(*           legitimate way to loop): such a timeout / failed allocation   *)
+(*           is recorded as `resource`, not as a violation.  A PANIC or a  *)
+(*           native stack overflow is a violation at any magnitude.        *)
 (* NOT adopted (findings, known_findings.d/C07.json): panics of builtins,  *)
 (* aborts below JIT frames, errors swallowed by stream thunks, ...         *)
 (***************************************************************************)
@@ -498,23 +499,23 @@ Families == <<
   F("long-hash-token", "#", "x", "", "", "", "", "", 4)
 >>
 
-R(n, def, ca, cb, val) == [n |-> n, def |-> def, ca |-> ca, cb |-> cb, val |-> val]
+R(n, def, ca, cb, val, maxd) == [n |-> n, def |-> def, ca |-> ca, cb |-> cb, val |-> val, maxd |-> maxd]
 Recursions == <<
-  R("rec-direct", "(define (r07r@@ n) (if (= n 0) 0 (+ 1 (r07r@@ (- n 1)))))", "(r07r@@ ", ")", "d"),
-  R("rec-mutual", "(define (r07r@@ n) (if (= n 0) 0 (+ 1 (r07s@@ (- n 1))))) (define (r07s@@ n) (if (= n 0) 0 (+ 1 (r07r@@ (- n 1)))))", "(r07r@@ ", ")", "d"),
-  R("rec-list-build", "(define (r07r@@ n) (if (= n 0) (list) (cons n (r07r@@ (- n 1)))))", "(length (r07r@@ ", "))", "d"),
-  R("rec-via-map", "(define (r07r@@ n) (if (= n 0) 0 (+ 1 (car (map (lambda (x) (r07r@@ (- n 1))) (list 1))))))", "(r07r@@ ", ")", "d"),
-  R("rec-via-apply", "(define (r07r@@ n) (if (= n 0) 0 (+ 1 (apply r07r@@ (list (- n 1))))))", "(r07r@@ ", ")", "d"),
-  R("rec-via-transduce", "(define (r07r@@ n) (if (= n 0) 0 (+ 1 (car (transduce (list 1) (mapping (lambda (x) (r07r@@ (- n 1)))) (into-list))))))", "(r07r@@ ", ")", "d"),
-  R("rec-via-handler", "(define (r07r@@ n) (if (= n 0) 0 (+ 1 (with-handler (lambda (e) 0) (r07r@@ (- n 1))))))", "(r07r@@ ", ")", "d"),
-  R("rec-via-wind", "(define (r07r@@ n) (if (= n 0) 0 (+ 1 (dynamic-wind (lambda () 0) (lambda () (r07r@@ (- n 1))) (lambda () 0)))))", "(r07r@@ ", ")", "d"),
-  R("rec-via-callcc", "(define (r07r@@ n) (if (= n 0) 0 (+ 1 (call/cc (lambda (k) (r07r@@ (- n 1)))))))", "(r07r@@ ", ")", "d"),
-  R("rec-via-eval", "(define (r07r@@ n) (if (= n 0) 0 (+ 1 (eval (list (quote r07r@@) (- n 1))))))", "(r07r@@ ", ")", "d"),
-  R("rec-via-thread", "(define (r07r@@ n) (if (= n 0) 0 (+ 1 (r07r@@ (- n 1)))))", "(thread-join! (spawn-native-thread (lambda () (r07r@@ ", "))))", "d"),
-  R("rec-error-at-bottom", "(define (r07r@@ n) (if (= n 0) (car (opaque 5)) (+ 1 (r07r@@ (- n 1)))))", "(r07r@@ ", ")", "err"),
-  R("rec-handled-at-top", "(define (r07r@@ n) (if (= n 0) (car (opaque 5)) (+ 1 (r07r@@ (- n 1)))))", "(with-handler (lambda (e) (quote rec)) (r07r@@ ", "))", "rec"),
-  R("rec-escape-from-bottom", "(define (r07r@@ n k) (if (= n 0) (k (quote rec)) (+ 1 (r07r@@ (- n 1) k))))", "(call/cc (lambda (k) (r07r@@ ", " k)))", "rec"),
-  R("rec-string-build", "(define (r07r@@ n) (if (= n 0) \"\" (string-append \"a\" (r07r@@ (- n 1)))))", "(string-length (r07r@@ ", "))", "d")
+  R("rec-direct", "(define (r07r@@ n) (if (= n 0) 0 (+ 1 (r07r@@ (- n 1)))))", "(r07r@@ ", ")", "d", 6),
+  R("rec-mutual", "(define (r07r@@ n) (if (= n 0) 0 (+ 1 (r07s@@ (- n 1))))) (define (r07s@@ n) (if (= n 0) 0 (+ 1 (r07r@@ (- n 1)))))", "(r07r@@ ", ")", "d", 6),
+  R("rec-list-build", "(define (r07r@@ n) (if (= n 0) (list) (cons n (r07r@@ (- n 1)))))", "(length (r07r@@ ", "))", "d", 6),
+  R("rec-via-map", "(define (r07r@@ n) (if (= n 0) 0 (+ 1 (car (map (lambda (x) (r07r@@ (- n 1))) (list 1))))))", "(r07r@@ ", ")", "d", 5),
+  R("rec-via-apply", "(define (r07r@@ n) (if (= n 0) 0 (+ 1 (apply r07r@@ (list (- n 1))))))", "(r07r@@ ", ")", "d", 5),
+  R("rec-via-transduce", "(define (r07r@@ n) (if (= n 0) 0 (+ 1 (car (transduce (list 1) (mapping (lambda (x) (r07r@@ (- n 1)))) (into-list))))))", "(r07r@@ ", ")", "d", 5),
+  R("rec-via-handler", "(define (r07r@@ n) (if (= n 0) 0 (+ 1 (with-handler (lambda (e) 0) (r07r@@ (- n 1))))))", "(r07r@@ ", ")", "d", 5),
+  R("rec-via-wind", "(define (r07r@@ n) (if (= n 0) 0 (+ 1 (dynamic-wind (lambda () 0) (lambda () (r07r@@ (- n 1))) (lambda () 0)))))", "(r07r@@ ", ")", "d", 5),
+  R("rec-via-callcc", "(define (r07r@@ n) (if (= n 0) 0 (+ 1 (call/cc (lambda (k) (r07r@@ (- n 1)))))))", "(r07r@@ ", ")", "d", 5),
+  R("rec-via-eval", "(define (r07r@@ n) (if (= n 0) 0 (+ 1 (eval (list (quote r07r@@) (- n 1))))))", "(r07r@@ ", ")", "d", 4),
+  R("rec-via-thread", "(define (r07r@@ n) (if (= n 0) 0 (+ 1 (r07r@@ (- n 1)))))", "(thread-join! (spawn-native-thread (lambda () (r07r@@ ", "))))", "d", 5),
+  R("rec-error-at-bottom", "(define (r07r@@ n) (if (= n 0) (car (opaque 5)) (+ 1 (r07r@@ (- n 1)))))", "(r07r@@ ", ")", "err", 6),
+  R("rec-handled-at-top", "(define (r07r@@ n) (if (= n 0) (car (opaque 5)) (+ 1 (r07r@@ (- n 1)))))", "(with-handler (lambda (e) (quote rec)) (r07r@@ ", "))", "rec", 6),
+  R("rec-escape-from-bottom", "(define (r07r@@ n k) (if (= n 0) (k (quote rec)) (+ 1 (r07r@@ (- n 1) k))))", "(call/cc (lambda (k) (r07r@@ ", " k)))", "rec", 6),
+  R("rec-string-build", "(define (r07r@@ n) (if (= n 0) \"\" (string-append \"a\" (r07r@@ (- n 1)))))", "(string-length (r07r@@ ", "))", "d", 4)
 >>
 
 \* a unit that RETURNS must return `val` (a unit may instead report an error value: the class is
@@ -524,12 +525,12 @@ ValOf(v, lit, depth) == IF v = "d" THEN ToString(depth) ELSE IF v = "lit" THEN l
 DeepText(fm, di) ==
   LET depth == Pow10(di + 1)  d == (di % 7) + 1
   IN [k |-> "deep", fam |-> fm.n, shape |-> "text", pre |-> fm.pre, a |-> fm.a, mid |-> fm.mid, b |-> fm.b, post |-> fm.post,
-      depth |-> depth, class |-> "noncrash", val |-> ValOf(fm.val, fm.lit, depth), d |-> d,
+      depth |-> depth, huge |-> (depth >= 100000), class |-> "noncrash", val |-> ValOf(fm.val, fm.lit, depth), d |-> d,
       probe |-> Probe([d |-> d, g |-> 1, p |-> 1])]
 DeepRec(r, di) ==
   LET depth == Pow10(di + 1)  d == (di % 7) + 1
   IN [k |-> "deep", fam |-> r.n, shape |-> "rec", def |-> r.def, call |-> r.ca \o ToString(depth) \o r.cb,
-      depth |-> depth, class |-> (IF r.val = "err" THEN "err" ELSE "noncrash"), val |-> ValOf(r.val, "", depth), d |-> d,
+      depth |-> depth, huge |-> (depth >= 100000), class |-> (IF r.val = "err" THEN "err" ELSE "noncrash"), val |-> ValOf(r.val, "", depth), d |-> d,
       probe |-> Probe([d |-> d, g |-> 1, p |-> 1])]
 
 -----------------------------------------------------------------------------
@@ -604,6 +605,7 @@ DeepPick ==
           /\ di <= Families[i].maxd
           /\ fi' = i /\ ar' = di /\ fam' = "text"
      \/ \E i \in 1..Len(Recursions) : \E di \in 2..MAXD :
+          /\ di <= Recursions[i].maxd
           /\ fi' = i /\ ar' = di /\ fam' = "rec"
   /\ phase' = "done" /\ UNCHANGED <<args, hist, G>>
 
